@@ -83,6 +83,32 @@ func (r *c35Rec) run(wg *sync.WaitGroup, name string, g, ops int, f func(worker,
 	}
 }
 
+// runUntil starts g goroutines that repeat f (at least minOps times) until stop is set.
+func (r *c35Rec) runUntil(wg *sync.WaitGroup, name string, g, minOps int, stop *atomic.Bool, pause time.Duration, f func(worker, i int)) {
+	a := r.act(name)
+	for w := 0; w < g; w++ {
+		wg.Add(1)
+		go func(w int) {
+			defer wg.Done()
+			a.start.CompareAndSwap(0, time.Now().UnixNano())
+			for i := 0; i < minOps || !stop.Load(); i++ {
+				f(w, i)
+				a.ops.Add(1)
+				if pause > 0 && i >= minOps {
+					time.Sleep(pause)
+				}
+			}
+			now := time.Now().UnixNano()
+			for {
+				old := a.end.Load()
+				if old >= now || a.end.CompareAndSwap(old, now) {
+					break
+				}
+			}
+		}(w)
+	}
+}
+
 func c35Has(in c35Input, act string) bool {
 	for _, a := range in.Acts {
 		if a == act {
@@ -118,6 +144,8 @@ func c35RunInner(in c35Input) (res c35Inner) {
 			c35Peers(in, rec)
 		case "transmit":
 			c35Transmit(in, rec)
+		case "router":
+			c35Router(in, rec)
 		}
 		done <- ""
 	}()
@@ -217,21 +245,24 @@ func c35FileConfig(in c35Input, rec *c35Rec) {
 	}
 	var calls atomic.Int64
 	c.RegisterReloadCallback(func(a, b string) { calls.Add(1) })
-	var wg sync.WaitGroup
+	// the readers keep going until the (slow: parse + validate) reloads are over
+	var wg, rwg sync.WaitGroup
+	var reloadsDone atomic.Bool
 	if c35Has(in, "reload") {
-		rec.run(&wg, "reload", min(in.G, 2), max(6, in.Ops/40), func(w, i int) {
+		rec.run(&rwg, "reload", min(in.G, 2), max(4, in.Ops/50), func(w, i int) {
 			writeCfg(9000+(w*1000+i)%5000, fmt.Sprint(w))
 			c.Reload()
 		})
 	}
+	pause := 300 * time.Microsecond
 	if c35Has(in, "metadata") {
-		rec.run(&wg, "metadata", in.G, in.Ops, func(w, i int) { c.GetConfigMetadata() })
+		rec.runUntil(&wg, "metadata", in.G, in.Ops, &reloadsDone, pause, func(w, i int) { c.GetConfigMetadata() })
 	}
 	if c35Has(in, "hashes") {
-		rec.run(&wg, "hashes", in.G, in.Ops, func(w, i int) { c.GetHashes() })
+		rec.runUntil(&wg, "hashes", in.G, in.Ops, &reloadsDone, pause, func(w, i int) { c.GetHashes() })
 	}
 	if c35Has(in, "getters") {
-		rec.run(&wg, "getters", in.G, in.Ops, func(w, i int) {
+		rec.runUntil(&wg, "getters", in.G, in.Ops, &reloadsDone, pause, func(w, i int) {
 			c.GetListenAddr()
 			c.GetTracesConfig()
 			c.GetCollectionConfig()
@@ -240,10 +271,12 @@ func c35FileConfig(in c35Input, rec *c35Rec) {
 		})
 	}
 	if c35Has(in, "register") {
-		rec.run(&wg, "register", 1, max(5, in.Ops/20), func(w, i int) {
+		rec.runUntil(&wg, "register", 1, max(5, in.Ops/20), &reloadsDone, 20*time.Millisecond, func(w, i int) {
 			c.RegisterReloadCallback(func(a, b string) { calls.Add(1) })
 		})
 	}
+	rwg.Wait()
+	reloadsDone.Store(true)
 	wg.Wait()
 }
 
@@ -498,7 +531,7 @@ func c35Stress(in c35Input, rec *c35Rec) {
 		})
 	}
 	wg.Wait()
-	time.Sleep(250 * time.Millisecond) // let the 100ms Recalc ticker run a couple of times against the above
+	time.Sleep(130 * time.Millisecond) // let the 100ms Recalc ticker run against the above at least once more
 	close(sr.Done)
 	time.Sleep(20 * time.Millisecond)
 	h.Stop()
